@@ -397,8 +397,8 @@ def verify_history(plan, resp, baselines, check_seq=True):
 
         if ev.op == "VOC":
             # parts whose zw_vocabulary_add failed (the same part twice) are not in
-            bad = int(ev.get("addfail", "0"))
-            VOCS[int(a[0])] = tuple(p_ for k_, p_ in enumerate(a[1:], 1) if k_ != bad)
+            badpart = int(ev.get("addfail", "0"))
+            VOCS[int(a[0])] = tuple(p_ for k_, p_ in enumerate(a[1:], 1) if k_ != badpart)
             st.probe("vocabulary_built_by_plan")
         elif ev.op == "VOCADD":
             if ev.outcome == "ok":
